@@ -306,7 +306,7 @@ theorem good_reflectP (r : Rec) (cs : Caches) :
   intro a ha cs'
   subst ha
   cases findSupertypesFromDefs cfg.fuel cfg.ns
-      (tagDefs cfg.ns r ++ findConjuncts cfg.ns (markerTags cfg.ns r)) [] with
+      (tagDefs cfg.ns r ++ findConjuncts cfg.ns (markerTags r)) [] with
   | ok ds =>
     simp only
     by_cases he : defined cfg.ns.defs entityName = true
